@@ -264,7 +264,7 @@ func c02CTCPProbe(r interface{ Intn(int) int }) c02Probe {
 	return c02Probe{raw, fmt.Sprintf("ctcp-%s-%s|unit=%q|n=%d", cmd, verb, unit, n)}
 }
 
-var c02Prefixes = []string{"", ":srv ", ":me!i@h ", ":ghost!g@h ", ":other ", ":x!y ", ":!@ ", ":me ", "@t=v ", "@t=v :me!i@h ", ":a@b!c "}
+var c02Prefixes = []string{"", ":srv ", ":me!i@h ", ":ghost!g@h ", ":third!t@h ", ":other ", ":x!y ", ":!@ ", ":me ", "@t=v ", "@t=v :me!i@h ", ":a@b!c "}
 
 type c02Probe struct {
 	raw   string
@@ -284,8 +284,8 @@ func c02BuiltinProbe(r interface{ Intn(int) int }) c02Probe {
 		return strings.Join(w, pick(" ", " ", "  "))
 	}
 	who := pick("me", "*", "ghost", "")
-	ch := pick("#c", "#c", "#nochan", "&x", "", "me")
-	nk := pick("me", "ghost", "other", "nobody", "", "@", "+")
+	ch := pick("#c", "#c", "&x", "&x", "#nochan", "", "me")
+	nk := pick("me", "ghost", "other", "third", "nobody", "", "@", "+")
 	var raw, kind string
 	switch r.Intn(9) {
 	case 0, 1:
@@ -314,7 +314,7 @@ func c02BuiltinProbe(r interface{ Intn(int) int }) c02Probe {
 	case 6:
 		kind = "membership"
 		v := pick("JOIN", "PART", "KICK", "QUIT", "NICK", "TOPIC")
-		raw = fmt.Sprintf(":%s %s %s", pick("me!i@h", "ghost!g@h", "nobody!n@h", "srv", "!@", "other"), v, words([]string{ch, nk, "#c", ":reason text", "", ":"}, 3))
+		raw = fmt.Sprintf(":%s %s %s", pick("me!i@h", "ghost!g@h", "third!t@h", "nobody!n@h", "srv", "!@", "other"), v, words([]string{ch, nk, "#c", ":reason text", "", ":"}, 3))
 	case 7:
 		kind = "registration"
 		raw = fmt.Sprintf(":srv %s %s", pick("001", "433", "410", "903", "904", "908", "AUTHENTICATE", "PING", "ERROR"), words([]string{who, nk, "+", ":", ":Welcome me!ident@host", ":in use", "PLAIN,EXTERNAL", "x", ""}, 4))
@@ -438,8 +438,11 @@ func runC02Live(c *Ctx) {
 		})
 		// a tracked session starts on a channel so that state handlers have something to chew on
 		if tracking {
+			// two channels with different members: nicks that are tracked but not on the channel a line names
 			mc.SendLine(":me!ident@h JOIN #c")
 			mc.SendLine(":srv 353 me = #c :@me +ghost other")
+			mc.SendLine(":me!ident@h JOIN &x")
+			mc.SendLine(":srv 353 me = &x :me @third")
 		}
 		if !s.FgMarker(mc) {
 			c.R.Inconcl("initial marker not reached")
@@ -456,6 +459,8 @@ func runC02Live(c *Ctx) {
 				// get back onto the channel in case a probe removed us
 				mc.SendLine(":" + s.Conn.Me().Nick + "!ident@h JOIN #c")
 				mc.SendLine(":srv 353 me = #c :@me +ghost other")
+				mc.SendLine(":" + s.Conn.Me().Nick + "!ident@h JOIN &x")
+				mc.SendLine(":srv 353 me = &x :me @third")
 				if !s.FgMarker(mc) {
 					c.R.Inconcl("re-join marker not reached")
 					dead = true
